@@ -175,6 +175,37 @@ def rule_a(chk, prog):
             own = cfg.nodes[nid]
             ok = bool(on_edges) and not cfg.reachable_without_edges(nid, on_edges)
             why = "every path to the read passes a test that establishes the switch" if ok else ""
+            if not ok and isinstance(n, ast.Name) and n.id in fi.params:
+                # a formal of a helper: guarded if EVERY call of the helper is made under the switch in its caller
+                sites = []
+                for ck in sorted(reached):
+                    cf = prog.funcs.get(ck)
+                    if cf is None:
+                        continue
+                    for call, tgt in prog.calls_in(cf):
+                        if getattr(tgt, "key", None) == fi.key:
+                            sites.append((cf, call))
+                def guarded_in(cf, call):
+                    cflow = flow_of(cf)
+                    ccfg = cflow.cfg
+                    cn = cflow.node_of(call)
+                    if cn is None:
+                        return False
+                    edges = set()
+                    for tn in ccfg.live_nodes():
+                        if tn.kind != "test":
+                            continue
+                        if kind == "method":
+                            for lab in (True, False):
+                                if g.method_ok(cf, tn.ast, lab, sw):
+                                    edges.add((tn.id, lab))
+                        elif kind == "flag":
+                            t_ = tn.ast
+                            if isinstance(t_, (ast.Name, ast.Attribute)) and g.attr_of(cf, t_) == sw:
+                                edges.add((tn.id, True))
+                    return bool(edges) and not ccfg.reachable_without_edges(cn, edges)
+                if sites and all(guarded_in(cf, call) for cf, call in sites):
+                    ok, why = True, f"formal of a helper all of whose {len(sites)} call(s) are made under the switch in the caller"
             # the read may itself be the second operand of the guarding condition (short-circuit): covered by the edges
             if not ok and attr == "AppEff":
                 # factor of the irrigation depth: Irr * (AppEff / 100)
